@@ -89,7 +89,9 @@ func NewProcessSet(executeProcesses, waitingProcesses []*schema.Process, definit
 		messageFlows:  messageFlows,
 		catchCh:       make(map[string]chan struct{}),
 		pendingWakes:  make(map[string]int),
-		mch:           make(chan imessage, len(executes)+1),
+		// unbuffered: a throw handed over is a throw the set's loop has taken, so that on
+		// cancellation none stays behind, accounted for in the wait group but never followed
+		mch:           make(chan imessage),
 		done:          make(chan struct{}, 1),
 	}
 
@@ -229,7 +231,12 @@ LOOP:
 					// watcher can finish, otherwise the set is reported complete while the
 					// target process has not even been instantiated yet.
 					ps.wg.Add(1)
-					ps.mch <- throwMessage{Id: *eventId}
+					select {
+					case ps.mch <- throwMessage{Id: *eventId}:
+					case <-ctx.Done():
+						// the set's loop has stopped: nobody follows the throw any more
+						ps.wg.Done()
+					}
 				}
 			}
 		case ActiveListeningTrace:
